@@ -465,6 +465,10 @@ func scenConn(rng *rand.Rand, rounds int) {
 			{"Conn.WriteMessages", func() { _, err := c.WriteMessages(kafka.Message{Value: []byte("w")}); ok("Conn.WriteMessages", err) }},
 			{"Conn.SetRequiredAcks", func() { c.SetRequiredAcks(1) }},
 			{"Conn.ReadMessage", func() { _, err := c.ReadMessage(1 << 16); ok("Conn.ReadMessage", err) }},
+			{"Conn.Brokers", func() { _, err := c.Brokers(); ok("Conn.Brokers", err) }},
+			{"Conn.Controller", func() { _, err := c.Controller(); ok("Conn.Controller", err) }},
+			{"Conn.Read", func() { _, err := c.Read(make([]byte, 64)); ok("Conn.Read", err) }},
+			{"Conn.Broker", func() { c.Broker(); c.LocalAddr(); c.RemoteAddr() }},
 			{"Batch.ReadMessage", func() { bt := getBatch(); _, err := bt.ReadMessage(); ok("Batch.ReadMessage", err); bt.ReadMessage() }},
 			{"Batch.Read", func() { bt := getBatch(); bt.Read(make([]byte, 2)) }},
 			{"Batch.Err", func() { getBatch().Err() }},
@@ -475,7 +479,7 @@ func scenConn(rng *rand.Rand, rounds int) {
 			// a Batch is open: operations that need the read lock would wait for Batch.Close, keep it in
 			runRound(rng, "conn", i, ops, 6, 10, "Batch.Close", "Batch.ReadMessage", "Batch.Err", "Conn.Seek")
 		} else {
-			runRound(rng, "conn", i, ops[:11], 6, 10)
+			runRound(rng, "conn", i, ops[:15], 6, 10)
 		}
 		bmu.Lock()
 		if batch != nil {
